@@ -534,6 +534,10 @@ def install(spec: Spec):
     spec.interference['handlers'] = Interference('handlers', havoc=['*'], keep=spec.interference['default'].keep + ['event_timeout', 'event_result_type'],
                                                   rely=spec.interference['default'].rely + [Clause_(c) for c in RESULT_RELY + TASK_RELY])
 
+    # asyncio.current_task().cancelling() > 0 (A8): a cancellation of THIS task was requested - as opposed to a CancelledError raised by
+    # user code. On a path of the symbolic execution that is exactly "a CancelledError was delivered at one of my suspension points".
+    spec.builtins['bubus._current_task_is_being_cancelled'] = lambda ex, n, awaited, recv=None: mk_bool(bool(ex.st.flags.get('cancelled')))
+
     spec.ghosts['invoked'] = parse_ty('int')      # handler invocations started by this task (task-owned)
 
     def _is_arg_of_create_task(ex, n):
@@ -587,7 +591,9 @@ def install(spec: Spec):
                 RaisesClause('TimeoutError', label='handler_timeout', tags=['C10'], origin='raise@',
                              ensures=[('timeout_recorded', "hid(self, handler) in event.event_results and " + HR + ".status == 'error' and " + HR + '.error is raised and ' + HR + ".started_at is not None", ['C10'])]),
                 RaisesClause('CancelledError', label='interrupted', tags=['C10', 'C16']),
-                RaisesClause('CancelledError', label='handler_raised_cancellederror', tags=['C11'], caller_only=True, delivered=False),
+                # a CancelledError raised by the handler itself while nobody cancelled this task: that handler's error, recorded as is
+                RaisesClause('CancelledError', label='handler_raised_cancellederror', tags=['C11'], delivered=False, origin='user:handler',
+                             ensures=[('error_recorded', "hid(self, handler) in event.event_results and " + HR + ".status == 'error' and " + HR + '.error is raised and ' + HR + ".started_at is not None", ['C11'])]),
                 RaisesClause('ValueError', label='not_callable', origin='raise@'),
             ])
     spec.methods[('EventBus', 'execute_handler')] = 'EventBus.execute_handler'
